@@ -383,6 +383,11 @@ func (exp *SplitExp) resolveRefs(self, siblings map[string]*ResolvedBinding,
 	case *BoundReference:
 		re, err := s.Exp.resolveRefs(self, siblings, lookup)
 		if err == nil {
+			if d, ok := re.(*DisabledExp); ok {
+				// The producer is conditionally disabled.  The source is
+				// still its (possibly null) output.
+				re = d.Value
+			}
 			switch rs := re.(type) {
 			case *RefExp:
 				src = &BoundReference{
